@@ -17,7 +17,7 @@ for ab in A B; do
     python3 - "$VERIF/seeded/$id/meta.json" "$cmd" <<'PY'
 import json,sys
 p,cmd=sys.argv[1:3]
-m=json.load(open(p)); m['demo_cmd']=cmd; m['round']=2
+m=json.load(open(p)); m['demo_cmd']=cmd; m['round']=int(__import__('os').environ.get('ROUND','2'))
 json.dump(m,open(p,'w'),indent=1)
 PY
     [ -n "$NOCHECK" ] || "$VERIF/tools/seeded.sh" "$id" | tail -1 | cut -c1-230
